@@ -39,7 +39,7 @@ ASSUMPTIONS = common.BASE_ASSUMPTIONS + [
 REAL_VS_STUB = common.REAL_VS_STUB
 QUICK_RUNS = 36000
 EXPECTED_PROBES = {
-    t: ["fault_sub", "fault_ins", "fault_del", "fault_trunc", "fault_reseal", "accepted_well_formed_after_fault", "zero_length_frame_insertions", "rejected_UBXParseError", "valnone_cases", "stream_cases", "stale_length_valid_checksum", "checksum_field_values", "short_inputs", "sync_field_values"]
+    t: ["fault_sub", "fault_ins", "fault_del", "fault_trunc", "fault_reseal", "accepted_well_formed_after_fault", "zero_length_frame_insertions", "rejected_UBXParseError", "valnone_cases", "stream_cases", "stale_length_valid_checksum", "checksum_field_values", "short_inputs", "sync_field_values", "reencoded_inputs"]
     for t in ("quick", "thorough")
 }
 
@@ -70,6 +70,9 @@ LADDER = [
 LADDER_N = {"quick": 5, "thorough": 6, "selftest": 1}
 
 
+_INSTANCES = {}  # (validate, msgmode) -> a reader configured the other way round
+
+
 def _ubx_errors():
     import pyubx2.exceptions as ube  # pylint: disable=import-outside-toplevel
 
@@ -81,8 +84,18 @@ def _parse(x, msgmode, validate=1):
     from pyubx2 import UBXReader  # pylint: disable=import-outside-toplevel
 
     perr, others = _ubx_errors()
+    parse = UBXReader.parse
+    if (len(x) + (x[-1] if x else 0)) % 5 == 0:
+        # the static method reached through an instance whose own settings are the opposite ones: what the
+        # caller passes decides, not what the reader that happens to be at hand was configured with
+        key = (validate, msgmode)
+        if key not in _INSTANCES:
+            import io  # pylint: disable=import-outside-toplevel
+
+            _INSTANCES[key] = UBXReader(io.BytesIO(b""), validate=0 if validate else 1, msgmode={0: 1, 1: 0, 2: 0, 3: 0}.get(msgmode, 0), quitonerror=0, parsing=False)
+        parse = _INSTANCES[key].parse
     try:
-        return ("ret", UBXReader.parse(x, msgmode=msgmode, validate=validate))
+        return ("ret", parse(x, msgmode=msgmode, validate=validate))
     except perr as err:
         return ("parse_error", err)
     except others as err:
@@ -294,6 +307,23 @@ def _seeded_unit(unit, res):
         if lnk.random() < 0.5:
             faults.append({"k": "reseal"})
         _check_one(res, fr_bytes.hex(), faults, MSGMODES, note)
+    elif roll < 0.55:
+        # the same frame in another spelling: whatever else it is, it is not a frame that begins with b5 62
+        fr_bytes, note = device.ubx_common(rng) if rng.random() < 0.6 else device.ubx_any(rng)
+        if len(fr_bytes) > 200:
+            fr_bytes, note = device.ubx_common(rng)
+        import base64  # pylint: disable=import-outside-toplevel
+
+        hx = fr_bytes.hex()
+        forms = [
+            hx.encode(), hx.upper().encode(), " ".join(hx[i : i + 2] for i in range(0, len(hx), 2)).encode(), hx.encode() + b"\r\n",
+            b"0x" + hx.encode(), base64.b64encode(fr_bytes), fr_bytes[::-1], bytes(b ^ 0xFF for b in fr_bytes),
+            fr_bytes.decode("latin-1").encode("utf-8"), b"".join(bytes((b, b)) for b in fr_bytes),
+        ]
+        x = rng.choice(forms)
+        if x[:2] != b"\xb5\x62" or not W.ubx_well_formed(x):
+            _check_one(res, x.hex(), [], MSGMODES, "re-encoded " + note, from_valid=False)
+            res.counters.hit("reencoded_inputs")
     elif roll < 0.6:
         # near-frames shorter than 8 bytes and arbitrary byte strings (clause A only)
         if rng.random() < 0.5:
